@@ -8,5 +8,6 @@ INVARIANT SearchExact
 INVARIANT SearchMonotone
 INVARIANT AfterExact
 INVARIANT YearNear
+INVARIANT CalendarOK
 CONSTRAINT Emit
 CHECK_DEADLOCK FALSE
